@@ -217,6 +217,8 @@ func registerStd(e *Engine) {
 		return a[0]
 	})
 	R("encoding/json.Marshal", func(fr *frame, a []value) value { return tuple{[]value{}, iface{}} })
+	R("github.com/tendermint/tendermint/libs/json.Marshal", func(fr *frame, a []value) value { return tuple{[]value{}, iface{}} })
+	R("github.com/tendermint/tendermint/libs/json.MarshalIndent", func(fr *frame, a []value) value { return tuple{[]value{}, iface{}} })
 
 	// ---- bytes / strings helpers implemented natively on concrete data
 	R("bytes.Equal", func(fr *frame, a []value) value {
